@@ -126,12 +126,16 @@ fn scale_one<T: Elem, M: MemCaps>(sp: &mut Sp, n: usize) {
             if sp.take() {
                 let opsig: &str = $opsig;
                 let desc: String = format!("{cfgname}|len={n}|{}", $desc);
+                // inside the monitoring window: heap blocks get guard zones, poison, layout records
+                monalloc::window_open();
                 let r: Result<Result<(), (&'static str, String)>, String> = guarded($body);
+                monalloc::window_reset();
                 match r {
                     Ok(Ok(())) => {}
                     Ok(Err((kind, m))) => sp.viol(kind, opsig, m, &desc),
                     Err(m) => sp.viol("model", opsig, format!("panicked: {m}"), &desc),
                 }
+                sp.drain_alloc(opsig, &desc);
                 sp.drain_reg(opsig, &desc);
                 sp.ctx.stats.bump("scale_stages", 1);
                 sp.ctx.stats.bump("scale_elements", n as u64);
@@ -434,6 +438,7 @@ fn huge_elements<M: MemCaps>(sp: &mut Sp) {
     }
     let opsig = "huge-element";
     let desc = format!("{cfgname}|element size {size}|views, handles, swaps, moves");
+    monalloc::window_open();
     let r: Result<Result<(), (&'static str, String)>, String> = guarded(|| {
         reg::reset();
         let mut v: V<M> = M::new_vec::<dyn Cloneable, T>(4);
@@ -526,11 +531,13 @@ fn huge_elements<M: MemCaps>(sp: &mut Sp) {
         }
         Ok(())
     });
+    monalloc::window_reset();
     match r {
         Ok(Ok(())) => {}
         Ok(Err((kind, m))) => sp.viol(kind, opsig, m, &desc),
         Err(m) => sp.viol("model", opsig, format!("panicked: {m}"), &desc),
     }
+    sp.drain_alloc(opsig, &desc);
     sp.drain_reg(opsig, &desc);
     sp.done(&desc, true, opsig);
 }
@@ -539,7 +546,9 @@ pub fn run(ctx: &mut Ctx) {
     if ctx.tool_mode {
         return;
     }
-    monalloc::set_mode(monalloc::MODE_OFF);
+    // heap blocks get guard zones, poison and layout checks (kinds read by C05 / C18)
+    monalloc::set_mode(monalloc::MODE_GUARD);
+    let _ = monalloc::drain_events();
     let mut sp = Sp::new(ctx, "scale", "scale".into());
     sp.ctx.ordinal = 0;
     use any_vec::mem::Heap;
@@ -557,4 +566,5 @@ pub fn run(ctx: &mut Ctx) {
     scale_one::<Z0d, Heap>(&mut sp, 70_001);
     huge_elements::<Heap>(&mut sp);
     huge_elements::<GuardMem>(&mut sp);
+    monalloc::set_mode(monalloc::MODE_OFF);
 }
